@@ -2,7 +2,7 @@
    Only theorem statements closed by `exact` (or a one-line combination), each followed by
    Print Assumptions; plus non-vacuity examples and the refutation witnesses of the findings. *)
 From Snax Require Import Base.Prelude Model.Tsl Model.C12Const Model.C12Casts Proofs.TslProofs
-  Proofs.C05DigitProofs Proofs.C05MainProofs Proofs.C05ExtraProofs Proofs.C12ConstProofs Proofs.C12CastsProofs Proofs.C12CoherenceProofs Proofs.C12NestedProofs.
+  Proofs.C05DigitProofs Proofs.C05MainProofs Proofs.C05ExtraProofs Proofs.C12ConstProofs Proofs.C12CastsProofs Proofs.C12CoherenceProofs Proofs.C12NestedProofs Proofs.C12ComposeProofs.
 
 (* (i) re-laid-out constants: for every static layout with positive bounds that satisfies the
    sortedness precondition (checked to follow from is_dense by the correspondence run), any contents
@@ -155,3 +155,46 @@ Example C12_realize_nested_nonvacuous :
   fst (ins_list 2%nat 0%nat false false post) = post ++ [ICopy 2 0]%nat.
 Proof. exact realize_nested_nonvacuous. Qed.
 Print Assumptions C12_realize_nested_nonvacuous.
+
+(* (ii) from the block to the program: one application of the pattern by the walker (rz_list) to a cast of
+   the function's top-level block gives a program with the same observations of every operation and the
+   same final contents of every buffer except the new allocation, for EVERY assignment of trip counts.
+   The facts about the state in front of the cast are hypotheses on that state (C12_realize_top_applies
+   shows them satisfied).  Partial: casts inside loop bodies are not lifted (correspondence/search only). *)
+Theorem C12_realize_top_equiv :
+  forall (p pre post : list item) (d src td ts s0 ts0 : nat) (others : list nat),
+    p = pre ++ ICast d src td ts :: post ->
+    ~ In d (casts pre) -> used d post = true ->
+    chain_source 64 p src ts = (s0, ts0) -> ts0 <> td ->
+    In s0 others -> ~ In d others ->
+    (forall trips, let s := exec_list trips pre init_state in
+       (forall v, v <> d -> alias s v <> d) /\ alias s src = alias s s0 /\ In (alias s s0) others /\
+       (forall v, alias s v = alias s s0 -> In v others)) ->
+    safe_nested d others post = true ->
+    prog_equiv [d] p (rz_list p d p).
+Proof. exact realize_top_equiv. Qed.
+Print Assumptions C12_realize_top_equiv.
+
+(* whole-pass composition: ANY finite sequence of equivalent realisations is an equivalence (the exception
+   set is the union of the new allocations); instantiated to the walker's worklist realize_all *)
+Theorem C12_fold_equiv :
+  forall (f : list item -> nat -> list item) cs p,
+    (forall cs1 c cs2, cs = cs1 ++ c :: cs2 -> let q := fold_left f cs1 p in prog_equiv [c] q (f q c)) ->
+    prog_equiv cs p (fold_left f cs p).
+Proof. exact fold_equiv. Qed.
+Print Assumptions C12_fold_equiv.
+
+Theorem C12_realize_all_equiv :
+  forall p,
+    (forall cs1 c cs2, rev (casts p) = cs1 ++ c :: cs2 ->
+       let q := fold_left (fun p c => rz_list p c p) cs1 p in prog_equiv [c] q (rz_list q c q)) ->
+    prog_equiv (rev (casts p)) p (realize_all p).
+Proof. exact realize_all_equiv. Qed.
+Print Assumptions C12_realize_all_equiv.
+
+Example C12_realize_top_applies :
+  let p := [ICast 2 0 1 0; ICast 3 1 1 0; IOp 0 [(2, KIn); (3, KOut)]; IOp 9 []]%nat in
+  prog_equiv [3%nat] p (rz_list p 3%nat p) /\
+  rz_list p 3%nat p = [ICast 2 0 1 0; IAlloc 3; IOp 0 [(2, KIn); (3, KOut)]; ICopy 3 1; IOp 9 []]%nat.
+Proof. exact realize_top_applies. Qed.
+Print Assumptions C12_realize_top_applies.
